@@ -13,7 +13,7 @@ TABLE = [
      'bounded-exhaustive enumeration of whitelists x expansion k x ALL query strings through the real BarcodeParser, brute-force nearest-neighbour oracle',
      'Every whitelist of <=3 barcodes of length 3 (thorough: also <=2 of length 4, 1 of length 5) over ACGTN, every k in 0..2 and every '
      'query string of that length go through addBarcode/expand/getIndexCorrectedBarcodeAndHammingDistance; every file layout x gz x '
-     'eager/lazy loading x accessor used before the first lookup (parser[alias], another alias, getTargetCount); shipped whitelists against all 5^L queries (quick: 6-nt index list and the 8-nt DamID2 list; thorough: all '
+     'eager/lazy loading x accessor used before the first lookup (parser[alias], another alias, getTargetCount), with a twin alias holding the same barcodes under other indices in the same parser; one parser holding the whole shipped indices/ directory; shipped whitelists against all 5^L queries (quick: 6-nt index list and the 8-nt DamID2 list; thorough: all '
      'shipped lists <=8 nt and the 10-nt DamID2 list).',
      'Whitelists are sets of equal-length ACGTN strings; geometry needing >3 barcodes is only covered through the shipped lists.'),
     ('C09',
@@ -40,7 +40,7 @@ TABLE = [
      'Small contigs (tens of bases); weights limited to single reads and mate halves.'),
     ('C11',
      'bounded-exhaustive enumeration of option sets x reads (all reads within 2 attribute changes of a plain read) on read_should_be_counted/assignReads and on create_count_table; independent recomputation oracle from the property text and CLI help',
-     'Level 1: 490 reads x all option sets within distance 3 of the default (quick) / all 24576 option sets (thorough). Level 2: the same '
+     'Level 1: ~500 reads (incl. a falsy feature value 0) x all option sets within distance 3 of the default (quick) / all 24576 option sets (thorough). Level 2: the same '
      'reads in one BAM through create_count_table with -contig, -bedfile and an unsorted blacklist BED, option sets within distance 2 (quick) / 3 (thorough). '
      'Interactions the documentation leaves open are executed but not judged (about 3.5% of cases, listed in the evidence assumptions).',
      'The oracle follows the CLI help strings; undocumented interactions (byValue x divided weight, NM missing, XA vs NH disagreement) are not judged.'),
@@ -56,12 +56,13 @@ TABLE = [
      'bounded-exhaustive enumeration of strategies x header shapes x every phred character at every encoded quality position x library-name lengths through demultiplex -> asFastq -> pysam read name -> QueryNameFlagger.digest; field-by-field round-trip oracle',
      'Every strategy x accepted Illumina header shape x every phred char 33..126 at every quality position stored in the name x int/str cell '
      'indices x library lengths moving the name across 240..260 (thorough 225..280); the pure codec on all 94 chars and all 8836 pairs. '
-     'Decoded BC/bc/bi/RX/RQ/LY/MX/aa/aA/Is/RN/Fc/La/Ti/CX/CY, SM and MI are compared with what was encoded; over-long names must be refused.',
+     'Decoded BC/bc/bi/RX/RQ/LY/MX/aa/aA/Is/RN/Fc/La/Ti/CX/CY, SM and MI are compared with what was encoded; over-long names must be refused; one '
+     'flagger instance decoding the reads of all strategies in sequence (3 orders) must equal a fresh flagger per read.',
      'MI/SM only demanded when the encoder produced the fields they derive from; qualities above the top letter saturate by design.'),
     ('C19',
      'fault enumeration / deviation-bounded exploration of the real HandleLimiter and FastqHandle over an in-memory file store with a descriptor budget: every write word x limiter setting x fault plan (EMFILE budgets, every placement of <=2 transient open failures, permanent path failure)',
      'All write sequences (up to path renaming) of length <=7 (thorough <=9, and 4 paths <=7) over 3 paths x maxHandles 1..4 x pruneEvery '
-     '{1,2,3,4,10000} x gzip/plain x fault plans: none, EMFILE when >=k descriptors are open (k=1..3), every set of <=2 failing open() calls '
+     '{1,2,3,4,10000} x gzip/plain x fault plans: none, EMFILE (and ENFILE) when >=k descriptors are open (k=1..3), every single failing open() call as EMFILE and as ENFILE, every pair of failing calls '
      '(placements discovered from the execution, deviation bound 2), one permanently failing path; plus FastqHandle(single_cell=True) words and a '
      '200-path sweep. Oracle: per-path log of acknowledged payloads vs gunzipped content of every file; a raise is legitimate only if the '
      'failing open happened with no other descriptor open.',
@@ -69,7 +70,7 @@ TABLE = [
     ('C01',
      'bounded-exhaustive enumeration of read-pair class words x strategies x loader configurations through the real loader loop, FASTQ reader and gzip writers; accounting oracle (each input pair exactly once in demultiplexed XOR rejects, mate-synchronised, counters = records written)',
      'For each of the 28 registered strategies: all words of length <=2 over a 10-22 letter alphabet of read-pair classes (whitelisted, '
-     '1-mismatch, unknown, truncated, short, empty, N, composite-branch classes, 8 header shapes) plus the word with every class, x '
+     '1-mismatch, unknown, truncated, short, empty, N, composite-branch classes, 8 header shapes) plus the word with every class and every class repeated 40 times, x '
      'paired/single end x rejects on/off x joint/per-cell x Hamming expansion x maxReadPairs (quick: default configuration and all at '
      'distance 1; thorough: full product), a phred sweep (thorough: all 0..93) and a 7000-pair per-cell word that drives the handle limiter '
      'through prune and re-open. Outputs are parsed strictly and accounted per input id.',
@@ -79,13 +80,13 @@ TABLE = [
      'bounded-exhaustive enumeration of fragment words (every ordered word = every multiset in every insertion order) over per-position contribution kinds, plus 3-position window cases, on the real Molecule.get_consensus; brute-force vote oracle and permutation/doubling invariance',
      'Every ordered word of <=5 (thorough <=7) fragments over 8 position-level kinds (not covering, single-end A/C, N, mates agree, R1/R2 '
      'disagree with either mate better, equal-quality disagreement), 13 kinds (third base, N-vs-base mates, phred-0 calls) at <=4 (<=5); each multiset also doubled (appended and '
-     'interleaved); window level: 3 adjacent positions, <=3 fragments, all covered sub-windows, both strands, soft clip / deletion / '
+     'interleaved) and queried after other queries with different arguments on the same molecule; window level: 3 adjacent positions, <=3 fragments, all covered sub-windows, both strands, soft clip / deletion / '
      'insertion / skip reads, dove_safe on and off. Oracle: one call per fragment (better mate; tie or N = no call), strict plurality or absent.',
      'Fragments have an R1 (R2-only fragments are skipped by the code); qualities limited to two levels.'),
     ('C15',
      'bounded-exhaustive enumeration of coverage shapes (multisets of <=3 fragment letters: mate gap x mismatch class x read length, both strands, Nla/CHIC/plain classes) through deduplicate_majority, write_pysam(consensus=True), run_tagging_task and the real --consensus --multiprocess command line; well-formedness oracle',
      'All multisets of <=3 fragment letters (single end, overlapping, adjacent, small gap, gap beyond max_N_span; clean / R1 mismatch at q30 '
-     'or q10 / R2 mismatch / R1 with a one-base insertion; two read lengths) x strand x molecule class x max_N_span None/5 x with/without source reads. Oracle: aligned '
+     'or q10 / R2 mismatch / R1 with a one-base insertion; two read lengths) x strand x molecule class x max_N_span None/5 x with/without source reads, and molecules with a fragment cap below the number of fragments offered (TF). Oracle: aligned '
      'blocks == union of read coverage, len(seq)==len(qual)==CIGAR query length, MD rebuilt against the true reference, unanimous => that '
      'base, symmetric evidence => N, dominating evidence => that base, SM/RX/DS/TF/TR tags equal the molecule\'s.',
      'Reads with N bases and CHIC molecules with assignment radius >0 are not generated; "no record skips more than max_N_span" is taken from the parameter name.'),
@@ -100,7 +101,7 @@ TABLE = [
     ('C18',
      'explicit-state search over histories of resolver runs sharing one cache directory (state = exact cache directory content), every run configuration x contig access sequence from every reached state; differential oracle (eager cache-free resolver) + independent VCF-text reader',
      'Runs = mode (eager/lazy/cache/cache+eager) x select_samples x ignore_conversions x phased x first operation x contig access sequence '
-     'over {c1,c2,c3_random,absent} (8160 runs per state); from every cache state reached (quick depth 2, 37 states; thorough depth 3, 477 '
+     'over {c1,c2,c3_random,absent}; sample selections None / {S1,S2} / {S1} / {S1,S3} with 70-character sample names of which two share a 57-character prefix; from every cache state reached (quick depth 2, 37 states; thorough depth 3, 477 '
      'states) all runs are executed and at every access all (position, base) lookups and has_location answers are compared; plus 288 '
      'Molecule.allele conformance cases.',
      'phased=False, missing genotypes and multi-base sites are only covered by the all-modes-agree comparison; region_start/region_end, prefetch and uglyMode are not generated.'),
@@ -123,7 +124,7 @@ TABLE = [
      'bounded-exhaustive enumeration of contig layouts through the real job builder (stubbed contig listing, probe instead of task generation) and of BAM layouts x method x --no_rejects x single/--multiprocess through the real command-line entry point with a scheduler-owned Pool, every completion order of the jobs; multiset-conservation oracle',
      '(a) every layout word over small (5 kb) / small (60 kb, two of them exceed the 100 kb grouping threshold) / large contigs with reads of length 0..6 (thorough 0..8), with/without the unmapped bin: each contig with '
      'reads in exactly one job, the unmapped bin once. (b) every header layout of <=3 (thorough <=4) contigs (small/large, with/without reads) '
-     'with/without unmapped pairs, holding proper, duplicate, reverse, no-motif, half-mapped, split-contig and orphan fragments; methods '
+     'with/without unmapped pairs, holding proper, duplicate (sequenced on another lane), reverse, no-motif, half-mapped, split-contig and orphan fragments, and contigs that hold only a placed unmapped read; methods '
      'nla/chic/qflag; --no_rejects on/off; single vs --multiprocess under ScheduledPool with every completion order (<=24/120) for nla, '
      'identity+reverse otherwise. Oracle: multiset of (name, mate, seq, qual, pos, CIGAR) equals the input primaries, coordinate sorted, usable '
      '.bai, every record carries an RG declared in the header, --no_rejects removes exactly the invalid fragments; free-running real-Pool '
@@ -148,9 +149,9 @@ TABLE = [
      'Kills land at Python-level step boundaries and two modelled mid-write points; pool jobs run in-process (killing one OS worker of a real Pool hangs and is not explored).'),
     ('C08',
      'schedule + tiling enumeration: one serial run vs every (bin size, fetch margin, job size, pool on/off) tiling of the region API and vs --multiprocess, each under every completion order of the jobs (scheduler-owned Pool), on the real command-line entry point; record-multiset equality oracle',
-     'A tiny genome (3 contigs; for the contig-per-process comparison also three 45-60 kb contigs and a large one) holding a molecule on, one before and one after every bin boundary that any tiling of the alphabet produces (taken from '
+     'A tiny genome (3 contigs; for the contig-per-process comparison also three 45-60 kb contigs and a large one) holding a molecule on, one before and one after every bin boundary that any tiling of the alphabet produces and on the first/last bases of every contig (taken from '
      'the real tiling function), both strands, 1-3 duplicates, two cells, rejects, half-mapped and unmapped pairs; bin sizes {250,700,1000,>contig} '
-     '(thorough adds 500), fetch margins {60=longest fragment, 1000} (thorough adds 100), job sizes {b,3b,inf}, with and without a pool; every '
+     '(thorough adds 500), fetch margins {60=longest fragment, 1000} (thorough adds 100), job sizes {b,3b,inf}, with and without a pool, plus a 20-base one-bin-per-job tiling of a dense input (> 100 result files); every '
      'completion order for <=4 (5) jobs, orders within 2 (3) adjacent swaps + reversal for more; methods nla and chic. Oracle: multiset of (name, mate, '
      'flag, position, CIGAR, sequence, all tags except mi/ix) equals the serial run.',
      'Fetch margin >= longest fragment; no blacklist; per-run identifiers and order among equal coordinates not compared.'),
